@@ -929,6 +929,8 @@ func main() {
 	jsonCases(s, r.Fork(), thorough)
 	structCoqCases(s, r.Fork(), thorough)
 	transportCases(s, r.Fork(), thorough)
+	enumCases(s, r.Fork(), thorough)
+	enumCoqCases(s, r.Fork())
 	if err := s.Finish(); err != nil {
 		fmt.Fprintln(os.Stderr, err)
 		os.Exit(2)
